@@ -27,34 +27,30 @@ _claim("C02", 'C02_verifier_equiv (closed under the global context): for ARBITRA
        'Coq proof (optimised verifier = textbook verifier for arbitrary proofs, all sizes) + scalar-by-scalar correspondence of the final multiscalar product', "5/C02")
 _claim("C03", "C03_batch_is_weighted_residuals (closed under the global context): for members of any mixture of aggregation factors sharing the owner's generator table (any capacity), arbitrary proofs and weights, the single multiscalar product a batch ends with equals sum_p w_p * textbook residual_p; hence it vanishes when every member satisfies the textbook equation (C03_batch_accepts_if_all_accept), and a member with a non-zero residual survives for at most one value of its weight (C08_bad_weight_unique; the random-oracle step after that is NOT a theorem). Chunking (cover, order, size), shape refusals and result alignment are theorems about the model of the repaired code. Differential runs: batch verdict vs conjunction of singleton verdicts vs model for sizes around every chunk boundary, eight kinds of invalid member at first/last/boundary/random positions, permutations, mixed capacities, per-member contexts.", _COMMON_NOTE,
        'Coq proof (batch product = weighted sum of textbook residuals; chunk cover; guards) + relational differential testing of batch vs singletons + model correspondence', "5/C03")
-_claim("C04", "The list of transcript operations of prover and verifier is a Gallina function of statement and proof; it is compared operation by operation with the instrumented merlin log, and for every "
-       "single-datum perturbation the recorded challenge bytes must differ from that datum on and agree before it. Injectivity/prefix theorems about the operation list are in Props/C04.",
-       _COMMON_NOTE, "Coq proof (structure of the operation list) + log correspondence + pairwise challenge-dependency runs", "5/C04")
+_claim("C04", "The list of transcript operations of prover and verifier is a Gallina function of statement and proof. Proved: restricted to the operations that determine a challenge, the prover's list (any witness, seed or not) equals the verifier's up to the final challenge (C04_prover_verifier_same_challenge_inputs), one errs on an identity point exactly when the other does, equal logs force equal statement data and proof points (C04_log_injective), every challenge's input extends the previous one. The list is compared operation by operation with the instrumented merlin log, and for every single-datum perturbation (also inside multi-chunk and mixed-aggregation batches) the recorded challenge bytes must differ from that datum on and agree before it. Merlin as a random oracle is trusted.", _COMMON_NOTE,
+       'Coq proof (same challenge inputs for prover and verifier; injectivity of the operation list) + log correspondence + pairwise challenge-dependency runs', "5/C04")
 _claim("C05", 'Every position of accepted triples is altered (scalars, points, round structure, tag, commitments, order, promises, bit length, generators, context; also inside multi-chunk and mixed-aggregation batches) and must yield an error; the model predicts the verdict and the scalars. Proved: a changed absorbed component changes the transcript log (C05_absorbed_component_changes_log); an accepted proof with r1, s1 or d1 changed is refused deterministically over linearly independent generators (C05_r1_binding, C05_s1_binding, C05_d1_binding, independence a hypothesis); shape mismatches are errors. Rejection after a changed absorbed component is probabilistic (random oracle) and stated as such.', _COMMON_NOTE,
        'Coq proof (deterministic rejections incl. response-scalar binding) + exhaustive position sweep with model correspondence', "5/C05")
-_claim("C06", "Guards of the prover modelled in code order over u64; prove Ok/Err compared with the validity of generated (statement, witness) pairs with exactly one violation at each position, every Ok is "
-       "verified, valid cases compared with the prover model.", _COMMON_NOTE, "Coq proof (guard characterisation) + differential runs with single-violation witnesses", "5/C06")
-_claim("C07", "Promise handling (a_L offset, transcript absorption with None = 0, H-scalar term, range guard) modelled and compared; promise grids at proving time and single substitutions at verification time.",
-       _COMMON_NOTE, "Coq proof (None = 0, guard) + differential promise sweeps with model correspondence", "5/C07")
-_claim("C08", "Weight derivation modelled as transcript operations (all of r1, s1, d1 absorbed; one weight per proof multiplying every term); adaptive cancellation attacks computed from observed weights must be "
-       "rejected and every response scalar must change the weight ratios; log and scalars compared with the model.", _COMMON_NOTE,
-       "Coq proof (weight-transcript structure) + adaptive attack search + log correspondence", "5/C08")
+_claim("C06", "The prover's guard is a Gallina predicate proved equivalent to the witness relation for all u64 values and bit lengths (C06_witness_valid_iff, C06_shift_guard_64); on every generated (statement, witness) pair — exactly one violation at each position, cancelling two-position violations, boundary values, degenerate valid openings — it is evaluated inside Coq at the concrete field and compared with prove Ok/Err (chk_guard); every Ok is verified (and is accepted by C01_completeness on the model); valid cases are compared with the prover model coordinate by coordinate.", _COMMON_NOTE,
+       'Coq proof (guard = witness relation) + guard model evaluated against prove Ok/Err on single-violation witnesses', "5/C06")
+_claim("C07", 'Promise handling (a_L offset, transcript absorption with None = 0, H-scalar term, range guard) modelled and compared. Proved: None = Some 0 in the log, a changed promise changes the log, oversized promises are refused, a promise enters the verification equation only through V_j - p_j H (C07_promise_is_commitment_shift, C07_P0_depends_on_shifted_commitments; part of C02_verifier_equiv), and the enforced relation gives promise <= value, value - promise < 2^bits (C01_range_reduction, C02_relation_implies_range). Promise grids at proving time, single substitutions at verification time, mixed-promise batches, guard order (an oversized promise must be refused before any transcript is touched).', _COMMON_NOTE,
+       'Coq proof (promise enters only as a commitment shift; None = 0; guard) + differential promise sweeps with model correspondence', "5/C07")
+_claim("C08", 'Weight derivation modelled as transcript operations (all of r1, s1, d1 absorbed; weights drawn after every proof of the chunk; one non-zero weight per proof multiplying every term). Proved: the batch product is sum_p w_p * residual_p (C03), a member with a non-zero residual survives for at most one value of its weight and two non-zero residuals cancel for one ratio only (C08_bad_weight_unique, C08_cancellation_fixes_ratio), the reject-zero loop returns the first n non-zero draws (C08_weights_nonzero). Adaptive cancellation attacks computed from observed weights must be rejected and every response scalar must change the weight ratios; log and scalars compared with the model. Unpredictability of the ratio is the random-oracle assumption.', _COMMON_NOTE,
+       'Coq proof (weight-transcript structure, unique cancelling ratio, non-zero weights) + adaptive attack search + log correspondence', "5/C08")
 _claim("C09", "C09_prover_mask_recovered (closed under the global context): for one commitment, any bit length / capacity / extension degree / promise / nonces and non-zero challenges, the verifier's recovery formula applied to the responses the code-shaped prover emits, queried with the prover's own (seed-derived) nonces, returns exactly the blinding vector, every component in order; result alignment in batches and None for unseeded / verify-only are theorems too. Recovered masks are compared with the blinding factors position by position on the implementation for all bit lengths and extension degrees, batches mixing seeded/unseeded/aggregated members.", _COMMON_NOTE,
        'Coq proof (end-to-end recovery identity on prover + verifier models) + differential runs', "5/C09")
-_claim("C10", "Verdict path is independent of seed and mode in the model by construction (theorems), compared on valid/invalid proofs x seeds (incl. seeds differing in one byte) x modes.", _COMMON_NOTE,
-       "Coq proof (non-interference of the seed) + differential runs", "5/C10")
+_claim("C10", 'Proved: the verdict and every scalar of the final check are independent of seed and verifying mode, RecoverOnly returns the masks RecoverAndVerify returns, and — end to end on the prover and verifier models — a verifier querying another seed oracle recovers r_k plus an explicit combination of nonce differences over e^2 z^2 y^(N+1) (C10_wrong_seed_end_to_end), i.e. the true mask only if that combination vanishes (probability 1/l under the oracle assumption, not a theorem). Compared on valid/invalid proofs x seeds (incl. seeds differing in one byte) x modes.', _COMMON_NOTE,
+       'Coq proof (non-interference of the seed; explicit wrong-seed offset) + differential runs', "5/C10")
 _claim("C12", 'C12_prover_capacity_independent (closed under the global context): generator sets that agree on H, Gb and the first m*bits vector generators give the same proof whatever the capacities and paddings; on the verifier side the batch equation (C03) holds for any owner table at least as long as the largest member. Padding, table owner and accumulation are modelled; every (prover capacity, verifier capacity) pair and mixed-capacity batches run on the code and are compared with the model; proofs must be byte-identical across prover capacities.', _COMMON_NOTE,
        'Coq proof (prover output independent of capacity; padding / prefix lemmas) + capacity-pair sweeps with model correspondence', "5/C12")
-_claim("C13", "Source map slot -> (RNG instance, draw) | seed nonce(label, j, k) in Gallina with distinctness theorems; every nonce is read off the proof's coordinates over the free-module group and compared.",
-       _COMMON_NOTE, "Coq proof (distinct sources, key-layout injectivity) + coordinate-level observation of every nonce", "5/C13")
+_claim("C13", "Source map slot -> (RNG instance, draw) | seed nonce(label, j, k) in Gallina. Proved: no two slots read the same source, the seed key layout is injective and is the documented one, the assignment always has the shape completeness and recovery need (C13_assigned_nonces_well_formed), RNG-sourced nonces go through the reject-zero loop (C13_rng_nonces_nonzero). Every nonce is read off the proof's coordinates over the free-module group and compared; every transcript RNG must be finalised with fresh external bytes; a stuck external RNG must still give pairwise distinct nonces. Value-freshness is the PRF assumption.", _COMMON_NOTE,
+       'Coq proof (distinct sources, key-layout injectivity, non-zero draws) + coordinate-level observation of every nonce', "5/C13")
 _claim("C14", "Transcript-RNG keying modelled as operations (witness bytes re-keyed into every instance, rebuilt after each update) and compared with the log; RNG fault models x one-datum-different run pairs must "
        "share no RNG-derived nonce.", _COMMON_NOTE, "Coq proof (keying structure, witness serialisation injective) + fault-model run pairs + log correspondence", "5/C14")
-_claim("C16", "Guards of decoder and verifier modelled in code order; hostile proofs/batches in debug and release builds over two back ends must never panic; model predicts Ok/Err. Partial by nature (panics inside "
-       "dependencies are runtime behaviour).", _COMMON_NOTE, "Coq proof (totality of the model's guards) + hostile-input exploration under catch_unwind (debug+release)", "5/C16")
-_claim("C11", "Label layout and chain indexing are a Gallina model; SHAKE256, SHA3-512 and the Ristretto one-way map are re-implemented in Gallina so that the generator BYTES are recomputed inside Coq and compared "
-       "with the implementation (quick: parties 0-3 and all Pedersen points; thorough: all 4103 points), plus recorded digest, pairwise distinctness, table order, capacity independence, racing first use.",
-       "Trusted: Coq kernel + vm_compute + BigZ; Crypto/Keccak.v and Crypto/Ristretto.v model dependencies (validated by byte equality with the Rust crates on every run, not verified); harness gens driver. No axioms.",
-       "Coq proof (label injectivity, table order; distinctness by computation on the finite domain) + byte-exact correspondence with a Gallina hash-to-group derivation", "5/C11")
+_claim("C16", 'Guards of decoder and verifier modelled in code order; one lemma per partial operation of the Rust code (s-vector indices, `1 << rounds` only below 64, index into d, ilog2 of a constructor-validated count, non-zero chunk size, back-end length assertion, checked padding); hostile proofs/batches (incl. 512-1024 commitments per statement) in debug and release builds over two back ends must never panic; model predicts Ok/Err. Partial by nature (the list of partial operations is hand-enumerated; panics inside dependencies are runtime behaviour).', _COMMON_NOTE,
+       'Coq proof (each enumerated partial operation stays inside its domain) + hostile-input exploration under catch_unwind (debug+release)', "5/C16")
+_claim("C11", "Label layout and chain indexing are a Gallina model with injectivity / prefix / table-order theorems; SHAKE256, SHA3-512 and the Ristretto one-way map are re-implemented in Gallina so that the generator BYTES are recomputed inside Coq and compared with the implementation (quick: parties 0-3 and all Pedersen points; thorough: all 4103 points), plus the recorded digest of the release's 4103 encodings, pairwise distinctness and non-identity of the implementation's points (exhaustive on the domain, by direct comparison, not a theorem), table order, capacity independence, racing first use.", "Trusted: Coq kernel + vm_compute + BigZ; Crypto/Keccak.v and Crypto/Ristretto.v model dependencies (validated by byte equality with the Rust crates on every run, not verified); harness gens driver. No axioms.",
+       'Coq proof (label injectivity, chain prefix, table order) + byte-exact correspondence with a Gallina hash-to-group derivation; distinctness exhaustive on the finite domain', "5/C11")
 _claim("C18", "Purity holds in the model by construction (state-free functions); the once-initialised statics are modelled as a state machine and proved correct under every schedule; histories, request sequences, "
        "16-thread runs against a single-threaded baseline and fresh-process first-use races are explored on the code. Partial by nature (real schedules are runtime behaviour).",
        "Trusted: Coq kernel; Model/Once.v is a logical model; OS scheduling; harness thread/history drivers. No axioms.",
@@ -63,10 +59,8 @@ _claim("C19", "Recorded 0.4.0 vectors (proof bytes reproduced by the prover, rec
        "with the independent Gallina prover/verifier coordinate by coordinate; wire constants (labels, key layout, byte layout) are literals of the model with theorems about them.",
        _COMMON_NOTE + " STROBE/Blake2b are not re-implemented in Gallina; the recording of the vectors is trusted.",
        "Coq proof (wire-constant layout) + recorded regression vectors + model-vs-implementation correspondence as independent reference", "5/C19")
-_claim("C20", "Discipline model of secret-holding buffers per code path with the theorem that no un-wiped secret is freed (and the refutation for the unrepaired nonce derivation); an interposing allocator in an "
-       "opt-level-0 build scans every freed block for the literal secrets. Partial by nature (compiler/allocator behaviour is runtime).",
-       "Trusted: Coq kernel; Model/Heap.v is hand-enumerated from the source; allocator harness; zeroize. No axioms.",
-       "Coq proof (wipe-before-free discipline) + allocator interposition exploration", "5/C20")
+_claim("C20", 'Discipline model of secret-holding buffers per code path with the theorems that no un-wiped secret is freed, also when the path stops after ANY number of steps (error return / unwinding: C20_early_exit_clean, C20_prover_early_exit_clean for every number of commitments and rounds), the refutation for the unrepaired nonce derivation and for late wrapping; an interposing allocator in an opt-level-0 build scans every freed block for the literal secrets and the bit-decomposition images, incl. spare capacity and a prove that fails half-way. Partial by nature (compiler/allocator behaviour is runtime).', "Trusted: Coq kernel; Model/Heap.v and Model/HeapExit.v are hand-enumerated from the source; allocator harness; zeroize. No axioms.",
+       'Coq proof (wipe-before-free discipline under every early return) + allocator interposition exploration', "5/C20")
 CLAIMED["C15"] = dict(
     text="The decoder/encoder model is proved, for every byte string of every length, to accept exactly the encodings of well-formed proofs "
          "(tag 1..6, 5+d+2k elements, k>=1, canonical scalars), to be canonical (decode then encode is the identity) and to round-trip "
